@@ -302,11 +302,7 @@ func init() {
 		return tuple{b, iface{}}
 	}
 	concreteStr := func(fr *frame, v value, what string) string {
-		s, ok := v.(string)
-		if !ok {
-			unsupported("regexp.%s on symbolic text", what)
-		}
-		return s
+		return fr.i.concreteString(v)
 	}
 	strs := func(ss []string) value {
 		if ss == nil {
